@@ -16,7 +16,7 @@ RULE = ('histories of 1-7 rows over a generated shape (nesting <=4, 1-4 keys per
         'random subsets of leaf paths, plus nonexistent paths and (sometimes) one disjoint branch path; '
         'non-trivial = >=2 rows, >=2 variables, and at least one falsy value or quantity; distinct = '
         'distinct case spec')
-PLAN = {'quick': {'n': 8000, 'min_cases': 1000}, 'thorough': {'n': 200000, 'min_cases': 20000}}
+PLAN = {'quick': {'n': 20000, 'min_cases': 1000}, 'thorough': {'n': 200000, 'min_cases': 20000}}
 REQUIRED_ORACLES = ['time_vector', 'embedded_values', 'path_values', 'query_raw', 'query_timeseries',
                     'readback']
 ANCHORS = ['vivarium.core.emitter:timeseries_from_data', 'vivarium.core.emitter:path_timeseries_from_data',
